@@ -7,7 +7,7 @@ import os, json, subprocess, time, fcntl, hashlib, shutil
 
 ROOT = os.path.dirname(os.path.dirname(os.path.abspath(__file__)))
 WORK_BASE = os.environ.get("VERIF_WORK", "/var/tmp/des-verif-work")
-FAMILY = {"C01", "C02", "C03", "C10", "C11"}
+FAMILY = {"C01", "C02", "C03", "C10", "C11", "C15"}
 
 
 def _build(repo):
@@ -58,6 +58,9 @@ def cq_search(repo, prop, tier, seed=1):
             res.update({"status": "not_run", "reason": "driver crashed: " + p.stderr.decode("utf8", "replace")[-300:]})
         return res
     finally:
+        if repo != "/repo":
+            tag = hashlib.sha1(repo.encode()).hexdigest()[:8]
+            shutil.rmtree(os.path.join(WORK_BASE, "cq_driver-" + tag), ignore_errors=True)
         fcntl.flock(lockf, fcntl.LOCK_UN)
         lockf.close()
 
